@@ -39,7 +39,7 @@ COMPONENTS = {
     "stub_or_harness": ["history generator", "spec/value generators", "reference spec parser (which members are public)"],
 }
 FAULT_KINDS = ["sibling_instance_created", "setattr_attempt", "delattr_attempt", "source_list_mutation", "returned_value_mutation_attempt"]
-PROBES = ["serialize_into_nonempty_writer", "unserializable_instance_observed", "invalid_instance", "live_sequence_view_argument", "packet_write_method", "serialize_into_sanitising_writer", "array_element_mutation_attempt", "array_of_structs", "optional_array_present", "blob_on_deserialized_instance", "case_data_mutated_through_parent",
+PROBES = ["serialize_into_shared_writer", "twin_instance_compared", "reincarnated_instance_compared", "serialize_into_nonempty_writer", "unserializable_instance_observed", "invalid_instance", "live_sequence_view_argument", "packet_write_method", "serialize_into_sanitising_writer", "array_element_mutation_attempt", "array_of_structs", "optional_array_present", "blob_on_deserialized_instance", "case_data_mutated_through_parent",
           "one_shot_iterator_argument", "nested_instance_setattr", "byte_size_setattr", "first_serialize_failed_skipped",
           "tree_rejected", "returned_value_was_mutable"]
 
@@ -75,6 +75,7 @@ class Instance:
         self.te, self.cls_name, self.origin = te, cls_name, origin
         self.sources = []
         self.siblings = []
+        self.shared = None
         self.iter_count = 0
         self.view_count = 0
         if origin == "ctor":
@@ -117,6 +118,14 @@ class Instance:
         else:
             self.te.bridge.cls(self.cls_name).serialize(w, self.obj)
         return bytes(w.to_bytearray())[prefix:]
+
+    def serialize_shared(self, obj=None):
+        """Append to a long-lived writer that other (possibly failing) serializations also use."""
+        if self.shared is None:
+            self.shared = self.te.EoWriter()
+        before = len(self.shared)
+        self.te.bridge.cls(self.cls_name).serialize(self.shared, self.obj if obj is None else obj)
+        return bytes(self.shared.to_bytearray())[before:]
 
     def snapshot(self):
         """Everything the public getters show, at every depth (must never change)."""
@@ -182,8 +191,11 @@ def gen_ops(inst, rng, n):
     targets = inst.targets()
     for _ in range(n):
         r = rng.random()
-        if r < 0.25:
+        if r < 0.2:
             ops.append(observe())
+            continue
+        if r < 0.25:
+            ops.append(["serialize_shared"])
             continue
         ti = rng.randrange(len(targets))
         path, obj, cls_name = targets[ti]
@@ -253,6 +265,51 @@ def run_history(inst, ops, res, tr, case, shape):
                         res.count("probe.array_of_structs")
                     if type(v) is not tuple:
                         return viol("array-not-tuple", inst.origin, f"{cls_name}.{attr} of a {inst.origin} instance is a {type(v).__name__}")
+    def reincarnation():
+        # ... also when a different instance of the class lived and died in between ("reincarnation": the
+        # interpreter hands the storage of a dead object to the next one of its size, so anything the code
+        # remembers about an instance by identity rather than by content resurfaces here).  The reference
+        # bytes come from an instance that stays alive; the short-lived one is built from the same arguments.
+        alts = []
+        for op in ops:
+            if op[0] == "sibling_ctor" and case["origin"] == "ctor":
+                alts.append(("ctor", op[1], None))
+            elif op[0] == "sibling_deserialize":
+                alts.append(("deserialize", None, bytes.fromhex(op[1])))
+        for origin, val, data in alts[:3]:
+            try:
+                keeper = Instance(te, inst.cls_name, origin, val, data, 0)
+                want = keeper.serialize()
+            except Exception:  # noqa
+                continue
+            if not isinstance(want, bytes):
+                continue
+            for _round in range(3):
+                try:
+                    mayfly = Instance(te, inst.cls_name, case["origin"], case.get("value"),
+                                      bytes.fromhex(case["data"]) if case.get("data") is not None else None, 0)
+                    mayfly.serialize()
+                except Exception:  # noqa  (the case's own instance may be an invalid one)
+                    pass
+                mayfly = None
+                try:
+                    again = Instance(te, inst.cls_name, origin, val, data, 0)
+                    got = again.serialize()
+                    del again
+                except Exception as e:  # noqa
+                    got = ("raised", type(e).__name__)
+                res.count("probe.reincarnated_instance_compared")
+                tr.ev("reincarnation", got == want)
+                if got != want:
+                    return viol("equal-instances-differ", "reincarnation",
+                                f"{inst.cls_name}: an instance built right after another one was discarded serializes to "
+                                f"{got.hex() if isinstance(got, bytes) else got}; an equal instance built earlier to {want.hex()}")
+        return None
+
+    if case.get("origin") in ("ctor", "deserialize"):
+        v = reincarnation()
+        if v:
+            return v
     firsts = {}
     try:
         snap0 = inst.snapshot()
@@ -298,6 +355,28 @@ def run_history(inst, ops, res, tr, case, shape):
                             f"{first.hex() if isinstance(first, bytes) else first} to {out.hex() if isinstance(out, bytes) else out} "
                             f"after {prev}")
             continue
+        if name == "serialize_shared":
+            # siblings (some of them unserializable) go through the same long-lived writer first
+            for sib in inst.siblings[-2:]:
+                try:
+                    inst.serialize_shared(sib)
+                except Exception:  # noqa
+                    pass
+            try:
+                out = inst.serialize_shared()
+            except Exception as e:  # noqa
+                out = ("raised", type(e).__name__)
+            res.count("probe.serialize_into_shared_writer")
+            tr.ev(step, name, out.hex() if isinstance(out, bytes) else out)
+            first = firsts.get(False)
+            if first is None:
+                firsts[False] = out
+            elif out != first:
+                return viol("serialization-changed", inst.origin,
+                            f"{inst.cls_name} ({inst.origin} instance): serialization into a long-lived writer (never put into "
+                            f"sanitising mode by the caller, used before by other instances) gave "
+                            f"{out.hex() if isinstance(out, bytes) else out}, a fresh writer gave {first.hex() if isinstance(first, bytes) else first}")
+            continue
         if name in ("setattr", "delattr"):
             try:
                 target = resolve(inst, op[1])
@@ -335,7 +414,15 @@ def run_history(inst, ops, res, tr, case, shape):
             res.keys.add(f"{shape}|{inst.origin}|{name}|-")
             try:
                 if name == "sibling_ctor":
-                    inst.siblings.append(Instance(te, inst.cls_name, "ctor", op[1]).obj)
+                    val = op[1]
+                    if step % 3 == 0:
+                        from .c15_modes import corrupt_value
+                        import copy
+                        import random as _random
+                        bad = copy.deepcopy(val)
+                        if corrupt_value(bad, _random.Random(step), te.spec):
+                            val = bad
+                    inst.siblings.append(Instance(te, inst.cls_name, "ctor", val).obj)
                 else:
                     inst.siblings.append(te.bridge.cls(inst.cls_name).deserialize(te.EoReader(bytes.fromhex(op[1]))))
             except Exception:  # noqa
@@ -391,6 +478,21 @@ def run_history(inst, ops, res, tr, case, shape):
             tr.ev(step, name, str(op[1]), op[2], how, ok)
             if ok:
                 res.count("probe.returned_value_was_mutable")
+    # an equal instance built the same way serializes to the same bytes (the bytes depend on the content only)
+    first = firsts.get(False)
+    if isinstance(first, bytes) and case.get("origin") in ("ctor", "deserialize"):
+        try:
+            twin = Instance(te, inst.cls_name, case["origin"], case.get("value"),
+                            bytes.fromhex(case["data"]) if case.get("data") is not None else None, 0)
+            tb = twin.serialize()
+        except Exception as e:  # noqa
+            tb = ("raised", type(e).__name__)
+        res.count("probe.twin_instance_compared")
+        tr.ev("twin", tb == first)
+        if tb != first:
+            return viol("equal-instances-differ", inst.origin,
+                        f"{inst.cls_name}: an instance built from the same {'arguments' if case['origin'] == 'ctor' else 'bytes'} "
+                        f"serializes to {tb.hex() if isinstance(tb, bytes) else tb}, this one to {first.hex()}")
     return None
 
 
